@@ -880,7 +880,7 @@ def safely(ctx, name, spec, fn, *args):
 # --------------------------------------------------------------------------------------------
 def search(run, rng, quick):
     ctx = Ctx(run, rng, quick)
-    rounds = 300 if quick else 3300
+    rounds = 200 if quick else 2400
     nmax = 5 if quick else 6
     for rd in range(rounds):
         if ctx.out_of_time():
